@@ -7,7 +7,9 @@
 (*   op    : a client operation                                            *)
 (*   resp  : what the server answers - "success" (with the payload the     *)
 (*           operation defines), "failed" (Operation Failed with a reason  *)
-(*           and message), "undone" (Operation Undone with reason and      *)
+(*           and message), "failed_noop" (the same without the Operation   *)
+(*           field, as servers answer request-level errors), "undone"      *)
+(*           (Operation Undone with reason and                             *)
 (*           message), "nobatch" (no batch item), "wrongop" (a successful  *)
 (*           item of another operation), "garbage" (a frame whose body is  *)
 (*           not TTLV), "empty" (zero bytes)                               *)
@@ -23,7 +25,7 @@ EXTENDS Naturals, Sequences, FiniteSets, TLC, Json
 Ops == {"create", "create_key_pair", "register", "derive_key", "locate", "get", "get_attributes", "get_attribute_list",
         "activate", "revoke", "destroy", "encrypt", "decrypt", "sign", "signature_verify", "mac",
         "delete_attribute", "set_attribute", "modify_attribute", "check", "rekey"}
-Resps == {"success", "failed", "undone", "nobatch", "wrongop", "garbage", "empty"}
+Resps == {"success", "failed", "failed_noop", "undone", "nobatch", "wrongop", "garbage", "empty"}
 Chunks == {"whole", "split_header", "bytewise", "eof_in_header", "eof_in_body"}
 Reasons == {"ITEM_NOT_FOUND", "PERMISSION_DENIED", "GENERAL_FAILURE", "CRYPTOGRAPHIC_FAILURE", "INVALID_FIELD"}
 
@@ -32,7 +34,7 @@ Intact(chunk) == chunk \in {"whole", "split_header", "bytewise"}
 Outcome(row) ==
     IF ~Intact(row.chunk) THEN "raises"
     ELSE CASE row.resp = "success" -> "returns"
-           [] row.resp \in {"failed", "undone"} -> "op_failure"
+           [] row.resp \in {"failed", "failed_noop", "undone"} -> "op_failure"
            [] OTHER -> "raises"
 
 \* o = observed [kind, dataok, status, reason, message]; want = the response's status / reason / message
@@ -43,7 +45,7 @@ C19(row, o) ==
 
 Rows == [op : Ops, resp : Resps, chunk : Chunks, reason : Reasons]
 VARIABLE row
-Init == row \in {r \in Rows : r.resp \in {"failed", "undone"} \/ r.reason = "ITEM_NOT_FOUND"}
+Init == row \in {r \in Rows : r.resp \in {"failed", "failed_noop", "undone"} \/ r.reason = "ITEM_NOT_FOUND"}
 Next == UNCHANGED row
 Spec == Init /\ [][Next]_row
 Emit == PrintT("@ROW@" \o ToJson([row |-> row, outcome |-> Outcome(row)]))
